@@ -30,7 +30,7 @@ func runLRU(far *Base, res *lib.Result, v Variant, r *lib.RNG) {
 	}
 	w := src.fork("lru-small-cache", r, 777, far.Pool, v, false)
 	defer w.close()
-	w.ask(fmt.Sprintf("cfg %x 2 0 1 1", W))
+	w.ask(fmt.Sprintf("cfg %x 2 0 1 1 1", W))
 	w.ask("load")
 	// grow to 3W+5 with events around the third boundary
 	h := len(w.Chain)
